@@ -131,6 +131,7 @@ def plan(tier: str) -> List[Dict[str, Any]]:
             {"name": "one transaction in another UTC offset", "schedules": singles, "steps": ("=", "d"), "depth": 3, "dev": "tz", "group": 2, "from_depth": 2},
             {"name": "another asset computed first with the same engine", "schedules": singles, "steps": ("=", "d"), "depth": 3, "dev": "prelude", "group": 2, "from_depth": 2},
             {"name": "accept / reject with a from-date (filters only hide rows)", "schedules": singles[:2], "steps": ("=", "d"), "depth": 3, "dev": "from", "group": 2, "from_depth": 2},
+            {"name": "steps of 250 ms (same second), sheet order reversed", "schedules": singles, "steps": ("ms", "d"), "depth": 3, "dev": 0, "group": 4, "row_order": "reverse"},
             {"name": "front end: crypto-fee acquisitions through parse_ods", "schedules": singles, "steps": ("=", "d"), "depth": 3, "dev": "front", "group": 4, "symbols": "fe"},
             {"name": "front end, sheet order reversed", "schedules": singles[:2], "steps": ("=", "d"), "depth": 3, "dev": "front", "group": 2, "symbols": "fe", "row_order": "reverse"},
         ]
@@ -142,6 +143,7 @@ def plan(tier: str) -> List[Dict[str, Any]]:
         {"name": "one transaction in another UTC offset", "schedules": singles, "steps": ("=", "d"), "depth": 4, "dev": "tz", "group": 1, "from_depth": 2},
         {"name": "another asset computed first with the same engine", "schedules": singles + two[:4], "steps": ("=", "d"), "depth": 4, "dev": "prelude", "group": 2, "from_depth": 2},
         {"name": "accept / reject with a from-date (filters only hide rows)", "schedules": singles, "steps": ("=", "d"), "depth": 4, "dev": "from", "group": 2, "from_depth": 2},
+        {"name": "steps of 250 ms (same second), sheet order reversed", "schedules": singles, "steps": ("ms", "d"), "depth": 4, "dev": 0, "group": 4, "row_order": "reverse"},
         {"name": "front end: crypto-fee acquisitions through parse_ods", "schedules": singles + two[:4], "steps": ("=", "d"), "depth": 4, "dev": "front", "group": 2, "symbols": "fe"},
         {"name": "front end, sheet order reversed", "schedules": singles, "steps": ("=", "d"), "depth": 4, "dev": "front", "group": 2, "symbols": "fe", "row_order": "reverse"},
     ]
